@@ -405,7 +405,7 @@ def afterPre (a : Actor) (supOk : Bool) (r : Res) : M :=
   | .ok =>
     match (if a.isLocal then none else a.wantSup) with   -- a thread-local actor was linked by `opSpawn`
     | some p =>
-      if Status.draining.rank ≤ a.status.rank || !supOk then failSpawn a .nolink
+      if Status.stopping.rank ≤ a.status.rank || !supOk then failSpawn a .nolink
       else ({ a with sup := some p, notifyOnCancel := true, phase := .ready, woken := true },
             [.eff (.link p), .ev (.spawnRet .ok)])
     | none => ({ a with notifyOnCancel := true, phase := .ready, woken := true }, [.ev (.spawnRet .ok)])
